@@ -25,7 +25,9 @@ type FuncContract struct {
 	Ensures    []Clause
 	LoopInv    map[int][]Clause // loop ordinal (1-based, pre-order) -> invariants
 	LoopRet    map[int][]Clause // loop ordinal -> clauses every return executed inside that loop must satisfy (r0, r1, ... = returned values)
+	LoopBrk    map[int][]Clause // loop ordinal -> clauses every break out of that loop must satisfy (`false`: the loop is only left through its condition or a return)
 	LoopMod    map[int][]string // extra havoc targets
+	Unrename   map[string]string // names.go: current identifier -> identifier the contract was written with
 	NoPanic    bool
 	AssumeNoPanic map[string]string // callee -> reason: taken not to panic when called from this nopanic function
 	Recovers   bool // every panic raised while the body runs is caught by a deferred recover of this function (structural rule)
@@ -260,6 +262,11 @@ func (pc *PkgContracts) parseFile(path string) error {
 						cur.LoopRet = map[int][]Clause{}
 					}
 					cur.LoopRet[k] = append(cur.LoopRet[k], Clause{Text: parts[2], Line: l.line, File: path})
+				case "break":
+					if cur.LoopBrk == nil {
+						cur.LoopBrk = map[int][]Clause{}
+					}
+					cur.LoopBrk[k] = append(cur.LoopBrk[k], Clause{Text: parts[2], Line: l.line, File: path})
 				case "modifies":
 					for _, v := range strings.Split(parts[2], ",") {
 						cur.LoopMod[k] = append(cur.LoopMod[k], strings.TrimSpace(v))
